@@ -1124,6 +1124,50 @@ let ghost nv = nodes@;
             && forall|i: int| 0 <= i < nodes.len() ==> *#[trigger] r.unwrap()@[i] == nodes[i].name,
 //@ end
 
+//@ extract fn src/graph/query.rs get_neighbor_nodes props=C02,C20 ty=Graph
+//@ rewrite
+-> Result<Vec<&Arc<Node<T, A>>>, Error>
+//@ with
+-> (r: Result<Vec<&Arc<Node<T, A>>>, Error>)
+//@ rewrite
+let all_nodes = pred_nodes
+            .into_iter()
+            .chain(succ_nodes)
+            .sorted_by(|a, b| Ord::cmp(&a.node_index, &b.node_index))
+            .dedup_by(|a, b| a.node_index == b.node_index)
+            .map(|adj|
+//@ with
+let merged = vchain_sorted_dedup(pred_nodes, succ_nodes);
+        let ghost mv = merged@;
+        let all_nodes = vmap_collect(merged, |adj: &AdjacentNode| -> (o: &Arc<Node<T, A>>)
+                requires adj.node_index < self.n(), self.wf_nodes(),
+                ensures **o == *self.nodes_vec@[adj.node_index as int],
+            {
+//@ rewrite
+)
+            .collect();
+
+        Ok(all_nodes)
+//@ with
+ });
+        proof {
+            assert(neighbors_listed(*self, node_index, mv, all_nodes@));
+        }
+        let res: Result<Vec<&Arc<Node<T, A>>>, Error> = Ok(all_nodes);
+        proof { assert(res.unwrap()@ == all_nodes@); }
+        res
+//@ spec
+    requires
+        self.wf_nodes(),
+        self.wf_rows(),
+    ensures
+        // [C02.adjacency.neighbor_nodes_guard]
+        !self.knows(node_name) ==> is_err_kind(r, ErrorKind::NodeNotFound),
+        // [C02.adjacency.neighbor_nodes_are_the_nodes_of_both_rows_each_once_by_position]
+        // the nodes at the positions named by the predecessor row or the successor row of the node, in increasing position, each once
+        self.knows(node_name) ==> r.is_ok() && exists|m: Seq<&AdjacentNode>| #[trigger] neighbors_listed(*self, self.nodes_map@[node_name], m, r.unwrap()@),
+//@ end
+
 //@ extract fn src/graph/query.rs get_node_by_index props=C02,C20 ty=Graph
 //@ rewrite
 -> Option<&Arc<Node<T, A>>>
@@ -1151,16 +1195,17 @@ pub fn vclone_nodes<T: Send + Sync, A>(v: Vec<&Arc<Node<T, A>>>) -> (r: Vec<Arc<
 pub fn vclone_node_vec<T: Send + Sync, A>(v: &Vec<Arc<Node<T, A>>>) -> (r: Vec<Arc<Node<T, A>>>)
     ensures r@ == v@,
 { v.clone() }
-// the edge collapse_edges builds for one entry: endpoints of the key, weight = float sum of the list's weights (uninterpreted fold)
-pub uninterp spec fn wsum_list<T: PartialOrd + Send, A>(list: Seq<Arc<Edge<T, A>>>) -> f64;
-pub open spec fn collapsed_edge<T: PartialOrd + Send, A>(k: (T, T), list: Seq<Arc<Edge<T, A>>>) -> Edge<T, A> {
-    Edge { u: k.0, v: k.1, attributes: None, weight: wsum_list(list) }
-}
 #[verifier::external_body]
 pub fn vcollapse_all<T: Eq + Hash + Clone + PartialOrd + Ord + Send + Sync + Display, A: Clone>(m: &HashMap<(T, T), Vec<Arc<Edge<T, A>>>>) -> (r: Vec<Arc<Edge<T, A>>>)
     ensures exists|keys: Seq<(T, T)>| #[trigger] keys.no_duplicates() && (forall|k: (T, T)| m@.contains_key(k) <==> #[trigger] keys.contains(k))
         && r@.len() == keys.len() && forall|i: int| 0 <= i < keys.len() ==> *#[trigger] r@[i] == collapsed_edge(keys[i], m@[keys[i]]@),
 { unimplemented!() /* m.iter().map(collapse_edges).collect() in the repository */ }
+// R-ext (A5): itertools' `a.into_iter().chain(b).sorted_by(by position).dedup_by(same position)`: ASSUMED to list, in strictly
+// increasing position, exactly the positions that occur in one of the two rows (one entry each)
+#[verifier::external_body]
+pub fn vchain_sorted_dedup<'a>(a: &'a Vec<AdjacentNode>, b: &'a Vec<AdjacentNode>) -> (r: Vec<&'a AdjacentNode>)
+    ensures merged_rows(a@, b@, r@),
+{ unimplemented!() }
 // R-ext (A5): `let m = Arc::make_mut(&mut a); m.weight = w;` (a returned &mut is outside Verus): ASSUMED to set the weight and nothing else
 #[verifier::external_body]
 pub fn vset_arc_edge_weight<T: Clone + PartialOrd + Send, A: Clone>(a: &mut Arc<Edge<T, A>>, w: f64)
